@@ -232,9 +232,10 @@ class FieldCodeGenerator:
         if self._length_string in self._context.length_field_is_referenced_map:
             self._context.length_field_is_referenced_map[self._length_string] = True
             length_field_data = self._context.accessible_fields[self._length_string]
-            self._data.init_body.add_line(
-                f'self._{length_field_data.name} = len(self._{self._name})'
-            )
+            length_expression = f'len(self._{self._name})'
+            if self._optional:
+                length_expression += f' if self._{self._name} is not None else None'
+            self._data.init_body.add_line(f'self._{length_field_data.name} = {length_expression}')
 
     def generate_serialize(self):
         self._generate_serialize_missing_optional_guard()
